@@ -79,6 +79,9 @@ pub fn wire_concurrency(t: &T2) -> (Vec<String>, usize, Option<u32>) {
     let role = t.role;
     let mut vios = vec![];
     let mut open: std::collections::BTreeSet<u32> = Default::default();
+    // streams the peer has reset before the subject's opening HEADERS left the codec (e.g. a pushed stream refused right
+    // after its PUSH_PROMISE while the response head sat in a blocked write buffer): they never count as open
+    let mut dead: std::collections::BTreeSet<u32> = Default::default();
     let mut limit: Option<u32> = None; // until the peer's first SETTINGS is acknowledged there is no limit
     let mut pending: std::collections::VecDeque<Vec<(u16, u32)>> = Default::default();
     // order: subject's frames in send order, peer frames at the time the subject's transport has read them
@@ -90,7 +93,7 @@ pub fn wire_concurrency(t: &T2) -> (Vec<String>, usize, Option<u32>) {
                     match &f.parsed {
                         Ok(Parsed::Headers { sid, eos, .. }) => {
                             let own = if role == Side::Client { sid % 2 == 1 } else { sid % 2 == 0 };
-                            if own && !open.contains(sid) {
+                            if own && !open.contains(sid) && !dead.contains(sid) {
                                 // a new stream: counts against the limit acknowledged so far
                                 if let Some(l) = limit {
                                     if open.len() as u32 >= l {
@@ -99,7 +102,13 @@ pub fn wire_concurrency(t: &T2) -> (Vec<String>, usize, Option<u32>) {
                                 }
                                 open.insert(*sid);
                             }
-                            let _ = eos;
+                            // a pushed stream is half-closed (remote) from the start: the server's own END_STREAM closes it
+                            if own && role == Side::Server && *eos {
+                                open.remove(sid);
+                            }
+                        }
+                        Ok(Parsed::Data { sid, eos: true, .. }) if role == Side::Server && sid % 2 == 0 => {
+                            open.remove(sid);
                         }
                         Ok(Parsed::RstStream { sid, .. }) => {
                             open.remove(sid);
@@ -125,7 +134,11 @@ pub fn wire_concurrency(t: &T2) -> (Vec<String>, usize, Option<u32>) {
                     match &f.parsed {
                         // a stream is closed at the earliest moment the subject can know: the peer's END_STREAM (the requests
                         // in this model carry END_STREAM themselves) or RST_STREAM has reached its transport
-                        Ok(Parsed::Headers { sid, eos: true, .. }) | Ok(Parsed::Data { sid, eos: true, .. }) | Ok(Parsed::RstStream { sid, .. }) => {
+                        Ok(Parsed::RstStream { sid, .. }) => {
+                            open.remove(sid);
+                            dead.insert(*sid);
+                        }
+                        Ok(Parsed::Headers { sid, eos: true, .. }) | Ok(Parsed::Data { sid, eos: true, .. }) => {
                             open.remove(sid);
                         }
                         _ => {}
@@ -621,6 +634,206 @@ impl Model for ServerConc {
     }
 }
 
+// ---------------------------------------------------------------------------------------------
+// (c) the subject initiates streams as a SERVER: pushed streams count against the client's limit
+
+#[derive(Clone, Debug)]
+pub enum PEv {
+    /// push_request + response head without END_STREAM (the pushed stream opens when that head is written)
+    AppPush,
+    AppEnd(usize),
+    AppReset(usize),
+    AppDrop(usize),
+    PeerRst(usize),
+    PeerLimit(Option<u32>),
+    Drive,
+    DriveBlocked,
+}
+
+pub struct PWorld {
+    /// (promised id, handle)
+    pub pushed: Vec<(u32, Option<h2::SendStream<Bytes>>)>,
+    pub ended: Vec<u32>,
+    pub app_reset: Vec<u32>,
+    pub peer_rst: Vec<u32>,
+}
+
+pub struct ServerPushConc {
+    pub events: Vec<PEv>,
+    pub name: &'static str,
+    pub initial_limit: u32,
+}
+
+impl ServerPushConc {
+    pub fn new(name: &'static str, quick: bool, initial_limit: u32) -> ServerPushConc {
+        let slots = if quick { 3 } else { 4 };
+        let mut ev = vec![PEv::AppPush];
+        for j in 0..slots {
+            ev.push(PEv::AppEnd(j));
+            ev.push(PEv::AppReset(j));
+            ev.push(PEv::AppDrop(j));
+            ev.push(PEv::PeerRst(j));
+        }
+        for l in [Some(0), Some(1), Some(2), None] {
+            ev.push(PEv::PeerLimit(l));
+        }
+        ev.push(PEv::Drive);
+        ev.push(PEv::DriveBlocked);
+        ServerPushConc { events: ev, name, initial_limit }
+    }
+    fn slots(&self) -> usize {
+        self.events.iter().filter(|e| matches!(e, PEv::PeerRst(_))).count()
+    }
+}
+
+impl Model for ServerPushConc {
+    type World = PWorld;
+    fn name(&self) -> &'static str {
+        self.name
+    }
+    fn cfg(&self) -> T2Cfg {
+        T2Cfg { role: Side::Server, peer_settings: vec![(wf::setting::MAX_CONCURRENT_STREAMS, self.initial_limit)], client: None, server: Some(server::Builder::new()), policy: IoPolicy::default() }
+    }
+    fn init(&self, t: &mut T2) -> PWorld {
+        t.peer_request(1, "/parent", true);
+        t.drive(50);
+        PWorld { pushed: vec![], ended: vec![], app_reset: vec![], peer_rst: vec![] }
+    }
+    fn n_events(&self) -> usize {
+        self.events.len()
+    }
+    fn event_name(&self, e: usize) -> String {
+        format!("{:?}", self.events[e])
+    }
+    fn enabled(&self, t: &T2, w: &PWorld, e: usize) -> bool {
+        if !t.conn_alive() {
+            return false;
+        }
+        let promised_on_wire = |sid: u32| t.subject_frames().iter().any(|f| matches!(&f.parsed, Ok(Parsed::PushPromise { promised, .. }) if *promised == sid));
+        match &self.events[e] {
+            PEv::AppPush => w.pushed.len() < self.slots() && t.accepted.first().map(|a| a.respond.is_some()).unwrap_or(false),
+            PEv::AppEnd(j) | PEv::AppReset(j) | PEv::AppDrop(j) => w.pushed.get(*j).map(|p| p.1.is_some()).unwrap_or(false),
+            PEv::PeerRst(j) => w.pushed.get(*j).map(|p| promised_on_wire(p.0) && !w.peer_rst.contains(&p.0)).unwrap_or(false),
+            PEv::PeerLimit(_) | PEv::Drive | PEv::DriveBlocked => true,
+        }
+    }
+    fn apply(&self, t: &mut T2, w: &mut PWorld, e: usize) {
+        let mut panics = vec![];
+        match self.events[e].clone() {
+            PEv::AppPush => {
+                if let Some(a) = t.accepted.first_mut() {
+                    if let Some(r) = a.respond.as_mut() {
+                        if let Some(Ok(mut p)) = guarded(&mut panics, "push_request", || r.push_request(simple_request("/pushed", false))) {
+                            let sid = p.stream_id().as_u32();
+                            match guarded(&mut panics, "pushed send_response", || p.send_response(simple_response(200), false)) {
+                                Some(Ok(ss)) => w.pushed.push((sid, Some(ss))),
+                                _ => w.pushed.push((sid, None)),
+                            }
+                        }
+                    }
+                }
+            }
+            PEv::AppEnd(j) => {
+                if let Some(mut ss) = w.pushed[j].1.take() {
+                    let _ = guarded(&mut panics, "send_data", || ss.send_data(Bytes::from_static(b"x"), true));
+                    safe_drop(&mut panics, "SendStream", Some(ss));
+                    w.ended.push(w.pushed[j].0);
+                }
+            }
+            PEv::AppReset(j) => {
+                if let Some(mut ss) = w.pushed[j].1.take() {
+                    guarded(&mut panics, "send_reset", || ss.send_reset(h2::Reason::CANCEL));
+                    safe_drop(&mut panics, "SendStream", Some(ss));
+                    w.app_reset.push(w.pushed[j].0);
+                }
+            }
+            PEv::AppDrop(j) => {
+                let h = w.pushed[j].1.take();
+                safe_drop(&mut panics, "SendStream", h);
+                w.app_reset.push(w.pushed[j].0);
+            }
+            PEv::PeerRst(j) => {
+                let sid = w.pushed[j].0;
+                t.peer_send(&wf::rst_stream(sid, 8));
+                w.peer_rst.push(sid);
+            }
+            PEv::PeerLimit(l) => t.peer_send(&wf::settings(&[(wf::setting::MAX_CONCURRENT_STREAMS, l.unwrap_or(1000))])),
+            PEv::Drive => {
+                t.drive(200);
+            }
+            PEv::DriveBlocked => {
+                t.sh.lock().unwrap().set_write_blocked(t.role, true);
+                t.drive(200);
+                t.sh.lock().unwrap().set_write_blocked(t.role, false);
+            }
+        }
+        t.panics.extend(panics);
+        t.catch_up();
+    }
+    fn invariant(&self, t: &mut T2, _w: &mut PWorld) -> V3 {
+        t.catch_up();
+        let (vs, _, _) = wire_concurrency(t);
+        vs.into_iter().map(|s| ("C05.limit-exceeded".to_string(), "push".to_string(), s)).collect()
+    }
+    fn epilogue(&self, t: &mut T2, w: &mut PWorld) -> V3 {
+        let mut v = vec![];
+        let mut panics = vec![];
+        if !t.conn_alive() {
+            return v;
+        }
+        // the client lifts its limit; the application ends every pushed response it still holds; then every promise that
+        // nobody cancelled has been announced, answered and ended on the wire (a pushed stream parked behind the limit is sent
+        // as soon as a slot is free)
+        t.drive(300);
+        t.peer_send(&wf::settings(&[(wf::setting::MAX_CONCURRENT_STREAMS, 1000)]));
+        t.drive(300);
+        for j in 0..w.pushed.len() {
+            if let Some(mut ss) = w.pushed[j].1.take() {
+                let _ = guarded(&mut panics, "send_data", || ss.send_data(Bytes::from_static(b"x"), true));
+                safe_drop(&mut panics, "SendStream", Some(ss));
+                w.ended.push(w.pushed[j].0);
+            }
+        }
+        t.drive(300);
+        t.catch_up();
+        t.panics.extend(panics);
+        if !t.panics.is_empty() || !t.conn_alive() || t.goaway_sent().is_some() {
+            return v;
+        }
+        for (sid, _) in &w.pushed {
+            if w.app_reset.contains(sid) || w.peer_rst.contains(sid) || !t.rst_sent(*sid).is_empty() {
+                continue;
+            }
+            let fr = t.subject_frames();
+            let promised = fr.iter().any(|f| matches!(&f.parsed, Ok(Parsed::PushPromise { promised, .. }) if promised == sid));
+            let head = fr.iter().any(|f| matches!(&f.parsed, Ok(Parsed::Headers { sid: s, .. }) if s == sid));
+            let end = fr.iter().any(|f| f.raw.stream() == *sid && matches!(&f.parsed, Ok(Parsed::Data { eos: true, .. }) | Ok(Parsed::Headers { eos: true, .. })));
+            if !(promised && head && end) {
+                v.push(("C05.request-parked-with-free-slot".into(), format!("push:{}{}{}", promised as u8, head as u8, end as u8), format!("pushed stream {}: the limit is lifted, its response was completed by the application and everything is quiescent, yet on the wire: PUSH_PROMISE {}, response head {}, END_STREAM {}", sid, promised, head, end)));
+            }
+        }
+        let (vs, _, _) = wire_concurrency(t);
+        v.extend(vs.into_iter().map(|s| ("C05.limit-exceeded".to_string(), "push".to_string(), s)));
+        v
+    }
+    fn digest_extra(&self, t: &T2, w: &PWorld) -> String {
+        let (_, open, limit) = wire_concurrency(t);
+        format!("pushed={:?} ended={:?} app_reset={:?} peer_rst={:?} open={} limit={:?}", w.pushed.iter().map(|p| (p.0, p.1.is_some())).collect::<Vec<_>>(), w.ended, w.app_reset, w.peer_rst, open, limit)
+    }
+    fn teardown(&self, mut t: T2, w: PWorld) -> Vec<String> {
+        let mut panics = std::mem::take(&mut t.panics);
+        for (_, h) in w.pushed {
+            safe_drop(&mut panics, "SendStream", h);
+        }
+        t.panics = panics;
+        t.finish()
+    }
+    fn counters(&self, t: &T2, w: &PWorld) -> Vec<(&'static str, u64)> {
+        let parked = w.pushed.iter().filter(|p| !t.subject_frames().iter().any(|f| matches!(&f.parsed, Ok(Parsed::Headers { sid, .. }) if *sid == p.0))).count() as u64;
+        vec![("streams_pushed", w.pushed.len() as u64), ("pushed_streams_not_yet_opened", parked)]
+    }
+}
+
 /// X3: with the write buffer filled to every level around "full", the peer opens two streams beyond the limit of 1: after the
 /// transport opens, each has been refused exactly once and neither reached the application.
 pub fn fill_sweep_one(vectored: bool, fill: usize, verbose: bool) -> Vec<(String, String, String)> {
@@ -701,13 +914,16 @@ pub fn run(ctx: &Ctx) -> Outcome {
     // the limit the CLIENT advertises applies to the streams the server pushes: two promises, limit 1
     let p1 = crate::c19::PushLife::new_variant("push-life-limit1", 2, Some(1));
     let r6 = search(ctx, &p1, "C05", if quick { 8 } else { 13 }, budget * 1.4, true);
-    fill_outcome(&mut out, &[(c1.name, &r1), (c2.name, &r2), (s1.name, &r3), (s2.name, &r4), (s3.name, &r5), (p1.name, &r6)]);
+    // the SERVER's own streams are the ones it pushes: they count against the client's limit
+    let sp = ServerPushConc::new(if quick { "server-push-limit1-q" } else { "server-push-limit1-t" }, quick, 1);
+    let r7 = search(ctx, &sp, "C05", if quick { 7 } else { 12 }, budget * 1.6, true);
+    fill_outcome(&mut out, &[(c1.name, &r1), (c2.name, &r2), (s1.name, &r3), (s2.name, &r4), (s3.name, &r5), (p1.name, &r6), (sp.name, &r7)]);
     out.set("exhaustive", json!(false));
     out.set("alphabet", json!({"client": c1.events.iter().map(|e| format!("{:?}", e)).collect::<Vec<_>>(), "server": s1.events.iter().map(|e| format!("{:?}", e)).collect::<Vec<_>>()}));
     out.set("rule", json!("X2 on T2, both directions. Client subject: 2-3 SendRequest clones, requests (parked when over the limit), poll_ready, peer responses / RST_STREAM, client reset / drop, peer SETTINGS MAX_CONCURRENT_STREAMS {0,1,2,unlimited} at any time, GOAWAY; invariant: the subject never opens a stream while as many as the acknowledged limit are open on the wire according to what it has itself sent and consumed; epilogue: no request parked while a slot is free, no poll_ready waiter left unwoken. Server subject advertising 1 / 2: peer opens up to limit+2 streams and closes them by every path, application responds / resets / drops / reads; invariant: unfinished streams surfaced <= limit, a refused stream gets exactly one REFUSED_STREAM and never reaches accept(); epilogue: nothing in limbo, and a new stream is accepted whenever fewer than the limit are open on the wire (every close path frees its slot)"));
     out.add_sample(json!({"harness": format!("x2.{}", c1.name), "depth": 3, "choices": [1, 1, 14]}));
     let mut vs = VioSet::default();
-    for r in [r1, r2, r3, r4, r5, r6] {
+    for r in [r1, r2, r3, r4, r5, r6, r7] {
         vs.merge(r.agg.vios);
     }
     fill_sweep(&mut out, &mut vs, ctx.tier.is_quick());
@@ -731,6 +947,12 @@ pub fn replay(v: &serde_json::Value) -> Option<bool> {
             let name: &'static str = Box::leak(format!("{}-{}", n, if quick { "q" } else { "t" }).into_boxed_str());
             if h == format!("x2.{}", name) {
                 return Some(replay_model(&ClientConc::new(name, quick, l), "C05", v));
+            }
+        }
+        {
+            let name: &'static str = if quick { "server-push-limit1-q" } else { "server-push-limit1-t" };
+            if h == format!("x2.{}", name) {
+                return Some(replay_model(&ServerPushConc::new(name, quick, 1), "C05", v));
             }
         }
         for (n, l, b) in [("server-limit1", 1u32, false), ("server-limit2", 2, false), ("server-limit1-blocked", 1, true)] {
